@@ -21,6 +21,7 @@ from itertools import groupby
 from multiprocessing.pool import ThreadPool
 from tempfile import TemporaryDirectory
 from threading import RLock
+from types import MappingProxyType
 
 from synced_collections.backends.collection_json import BufferedJSONAttrDict
 
@@ -530,6 +531,10 @@ class Project:
             raise ValueError("Either statepoint or id must be provided, but not both.")
         elif statepoint is not None:
             # Second best case (Job will update self._sp_cache on init)
+            if isinstance(statepoint, MappingProxyType):
+                # The read-only view handed out as Job.cached_statepoint cannot be
+                # deep-copied itself.
+                statepoint = dict(statepoint)
             return Job(project=self, statepoint=deepcopy(statepoint))
         try:
             # Optimal case (id is in the state point cache)
